@@ -47,8 +47,9 @@
 (*      index      = GET /index: IndexTo on every volume: Open(root),      *)
 (*                   Readdirnames, Open(block dir), Readdir(1) per entry   *)
 (*                   (names are a snapshot taken by the first call, each   *)
-(*                   name is lstat'ed when its turn comes, vanished names  *)
-(*                   are skipped), Close.  Lists names of 32 hex digits.   *)
+(*                   name is lstat'ed when its turn comes; a name that has *)
+(*                   vanished makes the handler panic, see IStep), Close.  *)
+(*                   Lists names of 32 hex digits.                         *)
 (*                   (The block directory of H exists on every volume.)    *)
 (*   Tick(d)       the virtual clock advances                              *)
 (*                                                                         *)
@@ -127,6 +128,9 @@ Abs == [v \in Vols |->
            mtu |-> IF dir[v] = 0 THEN 0 ELSE ino[dir[v]].mtu,
            tr  |-> {e.d : e \in tdir[v]}]]
 
+(* "pull_any" (a pull-list item without mount_uuid) is explored by TLC only: in the code as it is,  *)
+(* pullItemAndProcess passes a nil *VolumeMount as a non-nil Volume interface and the pull worker  *)
+(* dies of a nil dereference (proposed_fixes/C04-3.diff), so the behaviour cannot be replayed.      *)
 (* Gen configurations restrict the (large) product of configuration dimensions to three families: *)
 (* everything on one volume; two volumes; a third actor (untrash / EmptyTrash) on one volume.     *)
 (* Lock probes (nl): schedules in which an actor is told to go on although the model knows the     *)
@@ -145,7 +149,7 @@ GenFilter(n, ser, life, wk, tk, xk, pre, pretr, ro, nl) ==
                  /\ pre[1] = "intact_old" /\ pretr[1] # "none")
            \/ (n = 1 /\ xk = "index" /\ wk \in {"put", "pull"} /\ tk = "none" /\ ~ser /\ life = 2
                  /\ pre[1] \in {"none", "corrupt_old"} /\ pretr[1] \in {"none", "live"})
-           \/ (n = 1 /\ xk = "none" /\ wk \in {"pull", "pull_any"} /\ tk = "delete" /\ ~ser /\ life = 2 /\ notr)
+           \/ (n = 1 /\ xk = "none" /\ wk = "pull" /\ tk \in {"delete", "list_eq"} /\ ~ser /\ life = 2 /\ notr)
       [] Filter = "thorough" ->
            \/ (n = 1 /\ xk = "none" /\ wk \in {"put", "touch"} /\ tk # "none" /\ notr)
            \/ (n = 2 /\ xk = "none" /\ wk \in {"put", "touch"} /\ tk \in {"delete", "list_eq"} /\ ~ser /\ life = 2 /\ notr
@@ -154,7 +158,7 @@ GenFilter(n, ser, life, wk, tk, xk, pre, pretr, ro, nl) ==
                  /\ pre[1] # "intact_young" /\ pretr[1] # "none")
            \/ (n = 1 /\ xk = "index" /\ wk \in {"none", "put", "pull"} /\ tk \in {"none", "delete"} /\ ~ser /\ life = 2
                  /\ \A v \in 1 .. n : pre[v] # "intact_young" /\ pretr[v] # "expired")
-           \/ ((n = 1 \/ wk = "pull") /\ xk = "none" /\ wk \in {"pull", "pull_any"} /\ tk \in {"delete", "list_eq"}
+           \/ (xk = "none" /\ wk = "pull" /\ tk \in {"delete", "list_eq"}
                  /\ ~ser /\ life = 2 /\ notr
                  /\ \A v \in 1 .. n : pre[v] # "intact_young")
       [] OTHER -> TRUE
@@ -512,18 +516,25 @@ IStep ==
                                  !.f = 0, !.snap = {}]
               /\ UNCHANGED <<cvars, viol>>
          [] x.pc = "IndexTo.blockdir.Readdir" ->
-              \* the first call takes the snapshot of names; each call returns the next name that still
-              \* exists (lstat by path), or EOF
-              LET snap0 == IF x.f = 0 THEN IdxNames(v) ELSE x.snap
-                  alive == {nm \in snap0 : IdxAlive(v, nm)} IN
-              /\ IF alive = {}
-                 THEN x' = [x EXCEPT !.pc = "IndexTo.blockdir.Close", !.snap = {}, !.f = 1]
-                 ELSE \E nm \in alive :
-                        x' = [x EXCEPT !.f = 1, !.snap = snap0 \ {nm},
-                                       !.nf = IF nm.k = "H" THEN @ + 1 ELSE @,
-                                       \* lstat by path: the size listed is that of whatever is there now
-                                       !.nfail = IF nm.k = "H" /\ dir[v] = 3 /\ ~ino[3].ok THEN @ + 1 ELSE @]
-              /\ UNCHANGED <<cvars, viol>>
+              \* The first call takes the snapshot of names.  Each call takes the next name and lstat's it
+              \* by path.  os.File.Readdir(1) returns an EMPTY slice and a nil error when that name has
+              \* vanished meanwhile (temp file renamed or removed, block trashed, trash emptied), and IndexTo
+              \* indexes fileInfo[0] without looking: the handler panics (net/http recovers it, the response
+              \* ends there, without the terminating blank line).  Modelled as the code is: status 500.
+              LET snap0 == IF x.f = 0 THEN IdxNames(v) ELSE x.snap IN
+              IF snap0 = {}
+              THEN /\ x' = [x EXCEPT !.pc = "IndexTo.blockdir.Close", !.snap = {}, !.f = 1]
+                   /\ UNCHANGED <<cvars, viol>>
+              ELSE \E nm \in snap0 :
+                     IF IdxAlive(v, nm)
+                     THEN /\ x' = [x EXCEPT !.f = 1, !.snap = snap0 \ {nm},
+                                            !.nf = IF nm.k = "H" THEN @ + 1 ELSE @,
+                                            \* lstat by path: the size listed is that of whatever is there now
+                                            !.nfail = IF nm.k = "H" /\ dir[v] = 3 /\ ~ino[3].ok THEN @ + 1 ELSE @]
+                          /\ UNCHANGED <<cvars, viol>>
+                     ELSE /\ x' = [x EXCEPT !.pc = "done", !.st = 500, !.snap = {}, !.f = 1]
+                          /\ C!RetEff(3, 500)
+                          /\ viol' = (viol \/ ~C!RetOk(3, 500) \/ ~C!IndexOk(IdxEntries(x)))
          [] x.pc = "IndexTo.rootdir.Readdirnames2" ->
               IF v < cf.n
               THEN /\ x' = [x EXCEPT !.pc = "IndexTo.Open", !.v = v + 1, !.f = 0]
@@ -606,6 +617,9 @@ MutexDiscipline ==
 
 (* GET /index lists only complete blocks, whatever runs concurrently *)
 IndexComplete == x.nfail = 0 \/ cf.xk # "index"
+(* ... but it does not always finish: checked to FAIL (MC_C04_idxabort.cfg), the counterexample is the   *)
+(* panic described in IStep                                                                            *)
+IndexNeverAborts == ~(cf.xk = "index" /\ x.pc = "done" /\ x.st = 500)
 
 (* no deadlock: unless everything is finished some step is possible *)
 Progress == scanned \/ ENABLED Next
